@@ -167,6 +167,15 @@ class Models(object):
         return None
 
     def unpack(self, ex, path, v, n):
+        """a, b, .. = <text>: a string unpacks into its characters when it has exactly n of them, else ValueError"""
+        if isinstance(v, (VStr,)):
+            out = []
+            pt, pf = ex.branch(path, z3.Length(v.t) == n)
+            if pt is not None:
+                out.append((pt, [VStr(z3.SubString(v.t, i, 1)) for i in range(n)]))
+            if pf is not None:
+                out.extend(ex.raise_(pf, ValueError, 'not enough / too many values to unpack'))
+            return out
         return None
 
     def comprehension(self, ex, path, fr, node, it):
